@@ -1,4 +1,4 @@
-"""C33 -- cached state never leaks stale or wrong results (partial: protocol of the constant cache)."""
+"""C33 -- cached state never leaks stale or wrong results (partial: protocol of the constant cache, invalidation of the matrix LU cache)."""
 from checks import c17 as _c17
 
 PROPERTY = 'C33'
@@ -11,13 +11,20 @@ EXPLANATION = (
     "value a fresh process would compute, never a lower-accuracy cached one -- or, when the series routine raises at that point, "
     "propagates the exception and leaves the cache VALID (precision label and value still consistent), so that later requests "
     "are unaffected.  The series routine is the idealised F(q) = floor(C*2^q) of C17.  The other caches named by the property "
-    "(Bernoulli numbers, log/atan/cos-sin tables, quadrature nodes, hypergeometric summators, LU decompositions, memoize, odefun) "
-    "store results of numeric kernels whose accuracy is outside the encoding; their protocols are not covered by this check."
+    "(Bernoulli numbers, log/atan/cos-sin tables, quadrature nodes, hypergeometric summators, memoize, odefun) "
+    "store results of numeric kernels whose accuracy is outside the encoding; their protocols are not covered by this check.  "
+    "Matrix LU cache (lu_invalidate): matrix.__setitem__ of the current tree is executed from a 3x3 matrix (stored zeros and "
+    "non-zeros) whose _LU cache is filled, for every in-range element index, whole rows, whole columns and the whole matrix, with "
+    "the assigned value a symbolic Python int in -2..2 (zero included), a symbolic 10-bit mpf, and exact zeros of type mpf, mpc "
+    "and float: on every normally returning path the cached decomposition must be gone.  A counterexample is replayed through "
+    "LU_decomp on a real matrix against a matrix with the same entries and no history.  Only the invalidation step is covered: "
+    "LU_decomp's own use of the cache at another precision, and other mutators (the private element setter is reached only "
+    "through __setitem__), are not."
 )
 TRUSTED = _c17.TRUSTED
 ASSUMPTIONS = _c17.ASSUMPTIONS + ["fault model: the series routine raises instead of returning (the only call the wrapper makes)"]
 BUDGET = {'quick': dict(ob_deadline_s=60, total_s=120), 'thorough': dict(ob_deadline_s=300, total_s=900)}
-BOUNDS = {'quick': 'every memoised constant routine found in libelefun/gammazeta; prec in {1,2,5,10,20,33,50}; cache states empty / any valid; with and without a failing series routine'}
+BOUNDS = {'quick': 'every memoised constant routine found in libelefun/gammazeta; prec in {1,2,5,10,20,33,50}; cache states empty / any valid; with and without a failing series routine; LU cache: 3x3 (thorough 2x2..4x4), 9 element indices + 3 rows + 3 columns + whole matrix, 5 kinds of assigned value (int -2..2 and 10-bit mpf symbolic)'}
 
 
 def memoized_constants():
@@ -44,4 +51,11 @@ def obligations(tier, seed=0):
             for state in ('empty', 'filled'):
                 for fault in (0, 1):
                     obs.append((FC + 'const_memo', dict(name=name, mod=modname, prec=prec, state=state, fault=fault)))
+    # matrix LU cache: one mutation step from a matrix whose cache is filled
+    for n in ((3,) if tier != 'thorough' else (2, 3, 4)):
+        for key in ('elem', 'row', 'col', 'all'):
+            ijs = [(i, j) for i in range(n) for j in range(n)] if key == 'elem' else [(i, i) for i in range(n)] if key in ('row', 'col') else [(0, 0)]
+            for i, j in ijs:
+                for value in ('int', 'mpf', 'zero', 'mpc0', 'float0'):
+                    obs.append((FC + 'lu_invalidate', dict(n=n, key=key, i=i, j=j, value=value)))
     return obs
